@@ -103,6 +103,26 @@ def c07 (inp obs : Json) : Res :=
 def statusesOf (evs : List RecEv) : List Nat :=
   evs.filterMap fun e => if e.name == "writeHeader" || e.name == "app:writeHeader" then (e.args.getD 0 Json.null).getNat?.toOption else none
 
+/-- does the default side effect of this activity run, and does the activity lack the object/target it needs?
+(decided from the input value and from what the application answered in the trace) -/
+def requiredMissing (entry : String) (v : J) (evs : List RecEv) (sin : Json := Json.null) : Bool :=
+  let ty := Val.typeName v
+  let needsObject := ["Create", "Update", "Delete", "Follow", "Add", "Remove", "Like", "Undo", "Block"].contains ty
+  let needsTarget := ["Add", "Remove"].contains ty
+  let empty (p : String) : Bool := match Val.rawList v p with | none => true | some [] => true | _ => false
+  let missing := (needsObject && empty "object") || (needsTarget && empty "target")
+  let faultFree := !(evs.any fun e => isErr e.resp)
+  -- the default callback runs: callbacks were asked for, and no `other` callback of that type replaces it
+  let cfgEv := evs.find? fun e => e.name == (if entry == "postInbox" then "fedCallbacks" else "socialCallbacks")
+  let other := jIris (jget sin (if entry == "postInbox" then "fedOther" else "socOther"))
+  let reached := if entry == "postInbox"
+    then evs.any (fun e => e.name == "inboxContains" && e.resp == Json.mkObj [("ok", false)])
+    else evs.any (fun e => e.name == "hookOutbox")
+  let defaultRuns := match cfgEv with
+    | some e => !(jIris (jget (jget e.resp "ok") "other")).contains ty
+    | none => reached && !other.contains ty && other.all (fun o => (Gen.impl.findType o).isSome)
+  missing && faultFree && defaultRuns && (entry == "postInbox" || entry == "postOutbox")
+
 def c10Step (sin sobs : Json) : Option String × String :=
   let all := parseTrace (jget sobs "trace")
   let evs := libTrace sobs
@@ -116,6 +136,8 @@ def c10Step (sin sobs : Json) : Option String × String :=
   if (sobs.getObjVal? "panic").toOption.isSome then (none, "") else     -- crashes are C11's
   if !handled then
     (if allStatuses.isEmpty && bodies == 0 && err == "nil" then none else some "not handled, yet something was written or an error returned", "")
+  else if err != "nil" && requiredMissing entry (toJ (jget (jget sin "body") "v")) evs sin then
+    (some "the activity lacks a required object/target: the documented answer is 400, not an error", "")
   else if err != "nil" then
     -- a failing body write is reported after the status went out; nothing else may be written
     let writeFailed := evs.any fun e => e.name == "writeBody" && (isErr e.resp || e.resp == Json.mkObj [("ok", false)])
@@ -131,6 +153,7 @@ def c10Step (sin sobs : Json) : Option String × String :=
       let idUsable := match Val.idState v with | .iri _ => true | _ => false
       let blockedYes := evs.any fun e => e.name == "blocked" && e.resp == Json.mkObj [("ok", true)]
       let authDenied := all.any fun e => e.name == "app:writeHeader"
+      let missingRequired := requiredMissing entry v evs sin
       let expect : Option Nat :=
         if authDenied then some 401
         else if isGet then (if entry == "handler" && Val.typeName (toJ (match (evs.find? fun e => e.name == "get") with | some e => (jget e.resp "ok") | none => Json.null)) == "Tombstone" then some 410 else some 200)
@@ -141,7 +164,9 @@ def c10Step (sin sobs : Json) : Option String × String :=
         else none   -- 400 (missing object/target), 200 or 201: decided by the side effects; checked against the model
       let okStatus := match expect with
         | some e => s == e
-        | none => if entry == "postInbox" then s == 200 || s == 400 else s == 201 || s == 400
+        | none =>
+          if missingRequired then s == 400
+          else if entry == "postInbox" then s == 200 || s == 400 else s == 201 || s == 400
       let locOk := if s == 201 then
           -- Location = id of the activity that was stored and listed in the outbox
           let loc := match evs.find? fun e => e.name == "writeHeader" with
